@@ -423,6 +423,31 @@ theorem C13_reqopt_score_path_independent (hB : Lawful B VB WB) (fA fB : Nat →
     (ReqOpt.score A B s).1 = fA (A.doc s.req) + (if A.doc s.req ∈ lo then fB (A.doc s.req) else 0) :=
   ReqOpt.score_value hB hfA hfB hVO hc hsum hd
 
+/-- **Disjunction** (minimum-should-match, src/query/disjunction.rs): the heap-pop loop of `advance`
+(pop the scorers on the smallest document, count them, stop at the first document reached by at
+least `minimum_matches_required`) and the default methods, over lawful children. -/
+theorem C13_disjunction_lawful (hA : Lawful A VA WA)
+    (hscore : ∀ {c l}, VA c l → VA (A.score c).2 l) :
+    Lawful (Disj.ds A) (Disj.V VA) (defaultW (Disj.V VA)) :=
+  Disj.lawful hA hscore
+
+/-- from `Disjunction::new`: over valid children, every legal call program observes exactly the
+cursor over the documents contained in at least `k` of the children's lists -/
+theorem C13_disjunction_program_equiv (hA : Lawful A VA WA)
+    (hscore : ∀ {c l}, VA c l → VA (A.score c).2 l) (sum : Bool) (k : Nat) (hk : 1 ≤ k)
+    (cs : List σ) (ls : List (List Nat)) (L : List Nat) (hcs : All2 VA cs ls) (hL : Sorted L)
+    (hmem : ∀ x, x ∈ L ↔ k ≤ Disj.cnt x ls) (prog : List Op)
+    (hlegal : legalProg ⟨L, none⟩ prog = true) :
+    implRun (Disj.ds A) (Disj.new A sum k cs) prog = specRun ⟨L, none⟩ prog :=
+  C13_program_equiv _ _ _ (Disj.lawful hA hscore) prog _ L
+    (Disj.new_V hA hscore sum hk hcs hL hmem) hlegal
+
+theorem C13_disjunction_end_sticky (hA : Lawful A VA WA)
+    (hscore : ∀ {c l}, VA c l → VA (A.score c).2 l) (s : Disj.State σ) (hV : Disj.V VA s [])
+    (prog : List Op) (hlegal : legalProg ⟨[], none⟩ prog = true) :
+    implRun (Disj.ds A) s prog = specRun ⟨[], none⟩ prog :=
+  (C13_end_sticky _ _ _ (Disj.lawful hA hscore) prog s hV hlegal).1
+
 /-- on a document every child of the intersection sits on that document (what `score` relies on) -/
 theorem C13_intersection_children_aligned (hA : Lawful A VA WA) (s : Inter.State σ) (l : List Nat)
     (hV : Inter.V VA WA s l) (hne : l ≠ []) : ∀ c ∈ Inter.toList s, A.doc c = Spec.doc l :=
@@ -462,15 +487,16 @@ end combinators
 
 /-- **Every scorer tree.** For every nesting depth `n`, the model the driver runs on the harness's
 trees (`levelDS fx n`: BufferedUnionScorer / SimpleUnion / Intersection / Exclude /
-RequiredOptionalScorer nodes, nested arbitrarily, over VecDocSet / BitSetDocSet leaves) is `Lawful`.
-States holding a `Disjunction` node are outside the valid-state relation (its proof is open). -/
+RequiredOptionalScorer / Disjunction nodes, nested arbitrarily, over VecDocSet / BitSetDocSet
+leaves) is `Lawful`. -/
 theorem C13_tree_lawful (fx : Fix) (n : Nat) :
     Lawful (levelDS fx n) (LevelVW n).1 (LevelVW n).2 := (level_lawful fx n).1
 
 /-- from the tree description: whenever the description denotes the sorted list `l` (`Den`: leaves
 hold sorted lists, a union node denotes the union, an intersection node the common documents, an
-exclusion node the difference, a required/optional node its required part), `buildTree` — the
-constructors `BufferedUnionScorer::build`, `Intersection::new`, `Exclude::new`, … run bottom-up —
+exclusion node the difference, a required/optional node its required part, a minimum-should-match
+node the documents in at least `k` children), `buildTree` — the constructors
+`BufferedUnionScorer::build`, `Intersection::new`, `Exclude::new`, `Disjunction::new`, … run bottom-up —
 succeeds, and every legal call program on the built scorer observes exactly the cursor over `l`. -/
 theorem C13_tree_program_equiv (fx : Fix) (n : Nat) (t : Tree) (l : List Nat) (hden : Den n t l)
     (prog : List Op) (hlegal : legalProg ⟨l, none⟩ prog = true) :
@@ -489,46 +515,35 @@ theorem C13_tree_end_sticky (fx : Fix) (n : Nat) (t : Tree) (hden : Den n t [])
 theorem C13_tree_score_keeps_state (fx : Fix) (n : Nat) :
     ScoreOK (levelDS fx n) (LevelVW n).1 (LevelVW n).2 := (level_lawful fx n).2
 
-/-! ### Intersection and BufferedUnionScorer — open refinement statements
+/-! ### open statements
 
-OPEN (models tied by the correspondence run only; proofs not done):
+Proved above (no longer open): `Lawful` for Intersection (incl. the dense count), BufferedUnionScorer
+(every method), Disjunction, BitSetDocSet, and for every nesting of them (`C13_tree_lawful`).
 
-  (Intersection: proved above as C13_intersection_lawful_partial, everything except the value of
-  the dense count branch; C13_intersection_order_irrelevant proved.)
+OPEN — score clause of the SUM buffered union (the model is tied to the real code by the
+correspondence run and by the brute-force score oracle of the harness only):
 
-  theorem C13_union_lawful_partial (hA : Lawful A VA WA) (H : Nat) (hH : 0 < H ∧ 64 ∣ H)
-      (hroot : seek_danger targets are never below window_start)   -- excludes finding 5
-      : Lawful' (BUnion.ds A H) (BUnion.V VA H) (BUnion.W VA H)
-  -- Lawful' = Lawful without "the state after count is valid for []" (finding 3) ;
-  -- BUnion.V s l : children valid for ls, every child doc ≥ ws + H, window = deltas of the members
-  --   of the original children in (doc, ws + H), l = doc :: window docs ++ sorted union of ls.
-  -- plan for the score clause of the sum union (motivated by seeded C13-A / C12-A): children carry a
-  -- ghost score function g_i with (A.score c).1 = g_i (A.doc c), stable under advance/seek/score;
-  -- G x := Σ_{i : x ∈ original list i} g_i x. Invariant added to BUnion.V: scores[δ] = G (ws + δ) for
+  theorem C13_union_score_path_independent : for programs without fill_buffer
+  --   (findings 1, 2: C13_union_fill_buffer_*_counterexample), score at d = Σ child scores at d.
+  -- plan (motivated by seeded C13-A / C12-A): children carry a ghost score function g_i with
+  -- (A.score c).1 = g_i (A.doc c), stable under advance/seek/score (`Inter.Ghost`);
+  -- G x := Σ_{i : x ∈ original list i} g_i x. Invariant to add to BUnion.V: scores[δ] = G (ws + δ) for
   -- δ ∈ window, scores[δ] = 0 for every other δ < H, and s.score = G s.doc. `advance_buffered` reads
   -- and clears the popped slot; `refill` starts from an all-zero array (window empty, no fill_buffer)
   -- and every drained (child, x) adds g_i x to slot x - m; the in-horizon `seek` clears exactly the
   -- slots of the buckets it drops (the line seeded C13-A removes), the far `seek` clears all.
-  theorem C13_union_score_path_independent_partial : for programs without fill_buffer
-  --   (findings 1, 2: C13_union_fill_buffer_*_counterexample), score at d = Σ child scores at d.
+  -- The analogous statement for the intersection is proved: C13_intersection_score_path_independent.
+
+OPEN — the score of Disjunction (`current_score` = Σ of the matching children's scores) is modelled and
+run against the real code, not proved.
+
+Model-level hypothesis kept: the children of an Intersection hold documents with
+doc + BLOCK_WINDOW ≤ TERMINATED (`Small`; needed by the block arithmetic of the dense count in the
+natural-number model; real doc ids are < 2^31 - 1 and the real arithmetic is u32).
 -/
 
-/-! ### Disjunction (minimum-should-match heap) — refinement statement
-
-FULL STATEMENT (open; the model `Model/DocSet/Disjunction.lean` is tied to
-`tantivy::query::disjunction::Disjunction` by the correspondence run, its `Lawful` proof is not
-done):
-
-  theorem C13_disjunction_lawful (hA : Lawful A VA WA) (k : Nat) (hk : 2 ≤ k) :
-      Lawful (Disj.ds A) (Disj.V VA k) (defaultW (Disj.V VA k))
-  -- where `Disj.V VA k s l` : the scorers in the heap are valid for lists `ls`, the scorers that
-  -- matched `currentDoc` have been advanced past it, and
-  -- `l = currentDoc :: (documents > currentDoc occurring in at least k of the ls)`
-
-Only `doc`/`advance` are overridden, so by `C13_default_lawful` the statement reduces to
-`Core Disj.doc (Disj.advance A) (defaultSeek …) (Disj.V VA k)`. Checked instances (tests of the
-model on concrete inputs, not a proof): -/
-
+/-- a checked instance of the Disjunction model (a test on concrete inputs; the general statement is
+`C13_disjunction_lawful` above) -/
 theorem C13_disjunction_refines_instance :
     implRun (Disj.ds Vec.ds)
         (Disj.new Vec.ds true 2 [Vec.init [1, 5, 9] 2, Vec.init [5, 7, 9] 3, Vec.init [9, 11] 1])
@@ -649,6 +664,22 @@ example : Den 1 (.sunion [.vec [1, 5] 1, .bits [5, 7] 8 1]) [1, 5, 7] := by
 example : (buildTree {} 2 (.inter false [.bunion true [.vec [1, 5, 9] 1, .bits [5, 7] 8 2], .vec [5, 9, 11] 1])).map
       (fun s => implRun (levelDS {} 2) s [.doc, .advance, .seekDanger 10, .doc])
     = some (specRun ⟨[5, 9], none⟩ [.doc, .advance, .seekDanger 10, .doc]) := by decide +kernel
+example : Disj.cnt 5 [[1, 5], [5, 7], [9]] = 2 ∧ Disj.cnt 9 [[1, 5], [5, 7], [9]] = 1 := by decide
+example : Den 1 (.disj true 2 [.vec [1, 5] 1, .vec [5, 7] 1]) [5] := by
+  refine ⟨[[1, 5], [5, 7]], All2.cons ⟨rfl, ⟨by decide, by decide⟩, by unfold Small; decide⟩
+    (All2.cons ⟨rfl, ⟨by decide, by decide⟩, by unfold Small; decide⟩ All2.nil), by decide, ⟨by decide, by decide⟩, ?_⟩
+  intro x
+  simp only [Disj.cnt_cons, Disj.cnt_nil, List.mem_cons, List.mem_nil_iff, or_false]
+  constructor
+  · rintro rfl; decide
+  · intro h
+    by_cases h5 : x = 5
+    · exact h5
+    · exfalso
+      by_cases h1 : x = 1 <;> by_cases h7 : x = 7 <;> simp [h1, h7, h5] at h <;> omega
+example : (buildTree {} 2 (.excl (.disj true 2 [.vec [1, 5, 9] 1, .bits [5, 7, 9] 16 2, .vec [9, 11] 1]) [.vec [9] 1])).map
+      (fun s => implRun (levelDS {} 2) s [.doc, .advance, .doc])
+    = some (specRun ⟨[5], none⟩ [.doc, .advance, .doc]) := by decide +kernel
 example : Exclude.ok [[5, 7], [9]] 1 = true ∧ Exclude.ok [[5, 7], [9]] 9 = false := by decide
 example : Vec.V (Vec.init [1, 5, 9] 2) [1, 5, 9] := ⟨rfl, by
   refine ⟨by decide, ?_⟩
